@@ -449,20 +449,28 @@ func findBestBoundaryNear(boundaries []Boundary, position, tolerance int) *Bound
 	return best
 }
 
-// findSentenceEndNear finds a sentence ending near the target position
+// findSentenceEndNear finds a sentence ending near the target position.
+// A break at or before the target is preferred to any break after it, so that
+// a split at a maximum size stays within it whenever the text allows.
 func findSentenceEndNear(text string, targetPos int) int {
 	if targetPos >= len(text) {
 		return len(text)
 	}
 
-	// Look backwards for sentence end
-	for i := targetPos; i >= 0 && i > targetPos-100; i-- {
+	// Look backwards for sentence end; the split point i+1 must not lie
+	// beyond targetPos
+	for i := targetPos - 1; i >= 0 && i > targetPos-100; i-- {
 		if i < len(text) && isSentenceEndChar(text[i]) {
 			// Verify it's a real sentence end
 			if i+1 < len(text) && (text[i+1] == ' ' || text[i+1] == '\n') {
 				return i + 1
 			}
 		}
+	}
+
+	// Then for a word boundary before the target
+	if pos := findWordBoundaryBefore(text, targetPos); pos > 0 {
+		return pos
 	}
 
 	// Look forwards for sentence end
@@ -481,6 +489,18 @@ func findSentenceEndNear(text string, targetPos int) int {
 	return findWordBoundaryNear(text, targetPos)
 }
 
+// findWordBoundaryBefore returns the position after the last space in the 50
+// bytes before targetPos, or 0 if there is none. The result never exceeds
+// targetPos.
+func findWordBoundaryBefore(text string, targetPos int) int {
+	for i := targetPos - 1; i >= 0 && i >= targetPos-50; i-- {
+		if text[i] == ' ' || text[i] == '\n' {
+			return i + 1
+		}
+	}
+	return 0
+}
+
 // findWordBoundaryNear finds a word boundary near the target position
 func findWordBoundaryNear(text string, targetPos int) int {
 	if targetPos >= len(text) {
@@ -488,10 +508,8 @@ func findWordBoundaryNear(text string, targetPos int) int {
 	}
 
 	// Look for space before target
-	for i := targetPos; i >= 0 && i > targetPos-50; i-- {
-		if text[i] == ' ' || text[i] == '\n' {
-			return i + 1
-		}
+	if pos := findWordBoundaryBefore(text, targetPos); pos > 0 {
+		return pos
 	}
 
 	// Look for space after target
